@@ -285,7 +285,12 @@ def gen_case(rng, pid, tier):
         elif r < (0.94 if long_ else 0.92):
             ops.append(['restart'])
         elif r < (0.97 if long_ else 0.94):
-            ops.append(['crash', rng.randint(0, 6)])
+            if random.Random(repr(rng.getstate()[1][:4])).random() < 0.4:
+                # a failed write instead of a killed process, in a cycle that has something to publish
+                ops.append(newapp())
+                ops.append(['crash', rng.randint(0, 6), 'loss'])
+            else:
+                ops.append(['crash', rng.randint(0, 6)])
         else:
             # the master is dead while this happens (fail-over window); a new one starts afterwards
             sub = []
@@ -1305,7 +1310,8 @@ def _install(w):
                 w.opsites = []
                 try:
                     r = orig(self, *args, **kwargs)
-                except fz.Cut:
+                except (fz.Cut, fz.ke.ConnectionLoss):
+                    # (a killed process, or a failed write the real function did not survive)
                     w.depth = 0
                     w.run.op(pre(), None)     # replaced by the crash handler
                     raise
@@ -2080,7 +2086,7 @@ def _apply(case, pid, run, w, op):
         _restart(w, pid, 'restart')
         return
     if k == 'crash':
-        _crash(w, pid, op[1])
+        _crash(w, pid, op[1], loss=len(op) > 2 and op[2] == 'loss')
         return
     if k == 'offline':
         # no master is running: the changes reach the store only; the next master finds them at start-up
@@ -2326,21 +2332,43 @@ def _after_cycle(w, pid, when):
         monitor_c11(w, when)
 
 
-def _crash(w, pid, k):
-    """The next cycle stops after k storage writes (real write hook), then a new master starts."""
+def _crash(w, pid, k, loss=False):
+    """The next cycle stops after k storage writes (real write hook), then a new master starts.
+    `loss`: the process is not killed - write k+1 fails once with a lost connection; a master that does not die
+    on it must still have published its model."""
     w.stats['crash'] += 1
     w.now += 2
     w.run.op('tick %d' % w.now, None)
     _deliver_scheduled(w)
     n0 = len(w.zk.log)
     w.zk.cut = w.zk.writes + k
+    w.zk.cut_kind, w.zk.loss_fired = ('loss' if loss else None), False
     try:
         w.m.reschedule()
         w.m.check_placement_integrity()
         cut = False
     except fz.Cut:
         cut = True
+    except fz.ke.ConnectionLoss:
+        cut = True
+        w.stats['write-error-died'] += 1
+    except _Abort:
+        if loss and w.zk.loss_fired:
+            # the cycle went on after the failed write and the master's own integrity check then failed: state
+            # the property on what it left behind before the history ends
+            w.stats['write-error-survived'] += 1
+            w.zk.cut = None
+            monitor_c09(w, 'cycle-with-write-error')
+        raise
     w.zk.cut = None
+    w.zk.cut_kind = None
+    if loss and not cut and w.zk.loss_fired:
+        # the cycle went on after a failed write: whatever it skipped, the published placement has to equal the
+        # model when it returns (C09) - and nothing will redo the skipped write before the next change
+        w.stats['write-error-survived'] += 1
+        _after_cycle(w, pid, 'cycle-with-write-error')
+        if pid != 'C09':
+            monitor_c09(w, 'cycle-with-write-error')
     if cut:
         w.stats['crash-cut'] += 1
         # the wrapper left the op line of the interrupted function last; tell the model how many of that
